@@ -448,6 +448,176 @@ pub fn cases(w: &World, tier: Tier) -> Vec<Case> {
     v
 }
 
+// ------------------------------------------------------------------------------------------
+// histories: the verdict for a pair must not depend on what the same verifier / client was asked
+// before (explicit-state exploration of call sequences on ONE verifier and ONE client,
+// differential oracle: the verdict on a fresh instance)
+
+pub fn rep_calls() -> Vec<(String, String, Option<String>)> {
+    let mut v: Vec<(&str, &str, Option<&str>)> = vec![
+        ("web", "https://example.com", None),
+        ("web", "https://www.example.com", Some("example.com")),
+        ("web", "http://example.com", None),
+        ("web", "http://www.example.com", Some("example.com")),
+        ("web", "ws://example.com", Some("example.com")),
+        ("web", "https://evilexample.com", Some("example.com")),
+        ("web", "https://example.com.evil.org", Some("example.com")),
+        ("web", "https://www.example.co.uk", Some("co.uk")),
+        ("web", "https://www.example.co.uk", Some("example.co.uk")),
+        ("web", "http://www.example.co.uk", Some("example.co.uk")),
+        ("web", "https://example.com", Some("com")),
+        ("web", "http://localhost:8080", None),
+        ("web", "https://localhost", Some("localhost")),
+        ("web", "http://foo.localhost", Some("localhost")),
+        ("web", "https://www.xn--55qx5d.cn", Some("xn--55qx5d.cn")),
+        ("web", "https://shop.www.xn--55qx5d.cn", Some("www.xn--55qx5d.cn")),
+        ("web", "http://shop.www.xn--55qx5d.cn", Some("www.xn--55qx5d.cn")),
+        ("web", "https://127.0.0.1", None),
+        ("android", "example.com", None),
+        ("android", "www.example.com", Some("example.com")),
+        ("android", "evilexample.com", Some("example.com")),
+        ("android", "www.example.co.uk", Some("co.uk")),
+        ("android", "localhost", None),
+        ("android", "10.1.2.3", None),
+    ];
+    v.dedup();
+    v.into_iter().map(|(k, o, r)| (k.to_string(), o.to_string(), r.map(|s| s.to_string()))).collect()
+}
+
+#[derive(Clone, Debug, Serialize, Deserialize, PartialEq, Eq, Hash)]
+pub struct SeqCase {
+    /// indices into rep_calls()
+    pub seq: Vec<usize>,
+    pub localhost: bool,
+    /// drive Client::register for every call instead of RpIdVerifier::assert_domain
+    pub through_client: bool,
+}
+
+fn one_call(v: &RpIdVerifier<public_suffix::PublicSuffixList>, call: &(String, String, Option<String>)) -> Verdict {
+    let rp = call.2.as_deref();
+    if call.0 == "web" {
+        let Ok(url) = Url::parse(&call.1) else { return Verdict::Unbuildable };
+        let origin: Origin = (&url).into();
+        to_verdict(v.assert_domain(&origin, rp).map(|s| s.to_string()))
+    } else {
+        let Ok(link) = UnverifiedAssetLink::new("com.example.app", FP, call.1.as_str(), Url::parse("https://assets.example.com/.well-known/assetlinks.json").unwrap()) else { return Verdict::Unbuildable };
+        let origin = Origin::Android(link);
+        to_verdict(v.assert_domain(&origin, rp).map(|s| s.to_string()))
+    }
+}
+
+pub fn eval_seq(w: &World, c: &SeqCase) -> (Vec<Finding>, String) {
+    let case = json!({"sequence": c});
+    let calls = rep_calls();
+    let mut fs = vec![];
+    let r = par::catch(|| {
+        let mut out: Vec<(Verdict, Verdict, Vec<String>)> = vec![];
+        if !c.through_client {
+            let shared = RpIdVerifier::new(public_suffix::DEFAULT_PROVIDER).allows_insecure_localhost(c.localhost);
+            for &i in &c.seq {
+                let fresh = RpIdVerifier::new(public_suffix::DEFAULT_PROVIDER).allows_insecure_localhost(c.localhost);
+                out.push((one_call(&shared, &calls[i]), one_call(&fresh, &calls[i]), vec![]));
+            }
+        } else {
+            // one Client for the whole sequence; every call is a registration
+            let log = Log::new();
+            let store = Shared::new(RefStore::new());
+            let auth = Authenticator::new(Aaguid::new_empty(), Logging { inner: store.clone(), log: log.clone() }, ScriptedUv::consenting(log.clone()));
+            let mut client = Client::new(auth).allows_insecure_localhost(c.localhost);
+            for &i in &c.seq {
+                let call = &calls[i];
+                let fresh = RpIdVerifier::new(public_suffix::DEFAULT_PROVIDER).allows_insecure_localhost(c.localhost);
+                let want = one_call(&fresh, call);
+                let _ = log.take();
+                let opts = creation_options(Reg { rp_id: call.2.clone(), ..Default::default() });
+                let got = if call.0 == "web" {
+                    match Url::parse(&call.1) {
+                        Ok(url) => match block_on(client.register(&url, opts, DefaultClientData)) {
+                            Ok(cr) => Verdict::Accepted(crate::drivers::hex(&cr.response.authenticator_data[..32])),
+                            Err(e) => Verdict::Rejected(format!("{e:?}")),
+                        },
+                        Err(_) => Verdict::Unbuildable,
+                    }
+                } else {
+                    match UnverifiedAssetLink::new("com.example.app", FP, call.1.as_str(), Url::parse("https://assets.example.com/.well-known/assetlinks.json").unwrap()) {
+                        Ok(link) => match block_on(client.register(Origin::Android(link), opts, DefaultClientData)) {
+                            Ok(cr) => Verdict::Accepted(crate::drivers::hex(&cr.response.authenticator_data[..32])),
+                            Err(e) => Verdict::Rejected(format!("{e:?}")),
+                        },
+                        Err(_) => Verdict::Unbuildable,
+                    }
+                };
+                let touched: Vec<String> = log.take().iter().filter(|e| !matches!(e, Event::Info)).map(|e| e.kind().to_string()).collect();
+                // normalise the fresh verdict to the same shape (rpIdHash of the accepted RP ID)
+                let want = match want {
+                    Verdict::Accepted(r) => Verdict::Accepted(crate::drivers::hex(&Sha256::digest(r.as_bytes()))),
+                    o => o,
+                };
+                out.push((got, want, touched));
+            }
+        }
+        out
+    });
+    let out = match r {
+        Ok(o) => o,
+        Err(p) => {
+            fs.push(Finding::new(format!("history/kind=panic/site={}", par::panic_site(&p)), p, case));
+            return (fs, "panic".into());
+        }
+    };
+    let mut class = String::new();
+    for (k, (got, want, touched)) in out.iter().enumerate() {
+        let call = &calls[c.seq[k]];
+        let same = match (got, want) {
+            (Verdict::Accepted(a), Verdict::Accepted(b)) => a == b,
+            (Verdict::Rejected(_), Verdict::Rejected(_)) => true, // the reason may legitimately differ
+            (Verdict::Unbuildable, Verdict::Unbuildable) => true,
+            _ => false,
+        };
+        class.push(if matches!(got, Verdict::Accepted(_)) { 'A' } else { 'R' });
+        if !same {
+            fs.push(Finding::new(
+                format!("history/{}/kind=verdict-depends-on-earlier-calls", if c.through_client { "client" } else { "verifier" }),
+                format!("call #{k} {call:?} after {:?}: got {got:?}, a fresh instance says {want:?}", c.seq[..k].iter().map(|&i| &calls[i]).collect::<Vec<_>>()),
+                case.clone(),
+            ));
+        }
+        if c.through_client && matches!(got, Verdict::Rejected(_)) && !touched.is_empty() && matches!(want, Verdict::Rejected(_)) {
+            fs.push(Finding::new("history/client/kind=rejected-pair-reaches-authenticator", format!("call #{k} {call:?} is rejected but caused {touched:?}"), case.clone()));
+        }
+        // the stand-alone oracle applies to every accepted verdict as well
+        if !c.through_client {
+            if let Verdict::Accepted(r) = got {
+                let cc = Case { kind: call.0.clone(), origin: call.1.clone(), rp: call.2.clone(), localhost: c.localhost, custom_provider: false, through_client: false };
+                let (scheme, host) = if call.0 == "web" { Url::parse(&call.1).map(|u| (u.scheme().to_string(), u.host_str().unwrap_or("").to_string())).unwrap_or_default() } else { (String::new(), call.1.clone()) };
+                for (kind, d) in oracle(w, &cc, &scheme, &host, r) {
+                    fs.push(Finding::new(format!("history/origin={}/kind={kind}", call.0), format!("{d}; in call #{k} of a sequence"), case.clone()));
+                }
+            }
+        }
+    }
+    (fs, format!("history:{class}"))
+}
+
+pub fn seq_cases(tier: Tier) -> Vec<SeqCase> {
+    let n = rep_calls().len();
+    let mut v = vec![];
+    for localhost in [false, true] {
+        for a in 0..n {
+            for b in 0..n {
+                v.push(SeqCase { seq: vec![a, b], localhost, through_client: false });
+                v.push(SeqCase { seq: vec![a, b], localhost, through_client: true });
+                if tier == Tier::Thorough {
+                    for c in 0..n {
+                        v.push(SeqCase { seq: vec![a, b, c], localhost, through_client: false });
+                    }
+                }
+            }
+        }
+    }
+    v
+}
+
 pub fn run(ctx: &Ctx) -> Result<Run, String> {
     let w = World::load()?;
     let cs = cases(&w, ctx.tier);
@@ -459,6 +629,15 @@ pub fn run(ctx: &Ctx) -> Result<Run, String> {
         }
         st.findings_from(fs);
     });
+    let scs = seq_cases(ctx.tier);
+    let st2 = par::sweep_cases(&scs, ctx.threads, |c, st| {
+        let (fs, class) = eval_seq(&w, c);
+        st.case(c, class.contains('A'), &class);
+        st.count("history_sequences", 1);
+        st.findings_from(fs);
+    });
+    let mut stats = stats;
+    stats.merge(st2);
     let accepted: u64 = stats.outcomes.iter().filter(|(k, _)| k.starts_with("accepted")).map(|(_, v)| *v).sum();
     // harness-side vacuity guard: the oracle itself must deem some enumerated pair acceptable
     let acceptable = cs.iter().filter(|c| c.kind == "web" && c.origin.starts_with("https://example.com") && c.rp.as_deref() == Some("example.com")).count();
@@ -467,7 +646,7 @@ pub fn run(ctx: &Ctx) -> Result<Run, String> {
     }
     let mut run = Run::from_stats(
         "exploration",
-        "full product of ~47 hosts (plain/wildcard/exception suffixes, character-suffix traps, single-label, localhost shapes, IDN, trailing/empty labels, IP literals, custom-list names) x 6 schemes x 3 ports x RP IDs {absent, every character-level suffix of the host, '', www.+host, upper-case, leading/trailing dot, unrelated, localhost, U-label form} x insecure-localhost {off,on} x provider {shipped, 6-rule custom} for web and Android origins, plus every rule of the shipped list (A-label, and U-label for IDN rules) as RP ID of an origin one label below it; the https/http no-port subset is also driven through Client::register and Client::authenticate. Non-trivial = distinct pair that the implementation accepted",
+        "full product of ~47 hosts (plain/wildcard/exception suffixes, character-suffix traps, single-label, localhost shapes, IDN, trailing/empty labels, IP literals, custom-list names) x 6 schemes x 3 ports x RP IDs {absent, every character-level suffix of the host, '', www.+host, upper-case, leading/trailing dot, unrelated, localhost, U-label form} x insecure-localhost {off,on} x provider {shipped, 6-rule custom} for web and Android origins, plus every rule of the shipped list (A-label, and U-label for IDN rules) as RP ID of an origin one label below it; the https/http no-port subset is also driven through Client::register and Client::authenticate. plus histories: every ordered pair (thorough: triple) of 24 representative calls on ONE RpIdVerifier and on ONE Client, each verdict compared with a fresh instance's (history independence). Non-trivial = distinct pair/sequence that the implementation accepted",
         true,
         stats,
     );
@@ -480,6 +659,10 @@ pub fn run(ctx: &Ctx) -> Result<Run, String> {
 
 pub fn replay(_ctx: &Ctx, case: &Value) -> Result<Vec<Finding>, String> {
     let w = World::load()?;
+    if let Some(sq) = case.get("sequence") {
+        let c: SeqCase = serde_json::from_value(sq.clone()).map_err(|e| format!("bad C01 sequence: {e}"))?;
+        return Ok(eval_seq(&w, &c).0);
+    }
     let c: Case = serde_json::from_value(case.clone()).map_err(|e| format!("bad C01 case: {e}"))?;
     Ok(eval(&w, &c).0)
 }
